@@ -459,7 +459,15 @@ impl EmitRun {
             w.count("skipped:grammar-has-lalr-conflict");
             return;
         }
-        let (out, _hc) = kside::generate(&c.src, super::lalr_diff::step_limit(&r));
+        // every fifth grammar is generated inside a build-script-like process environment (OPT_LEVEL,
+        // PROFILE, TARGET ... and every variable kiki's sources read): the emitted parser must be the same
+        let (out, _hc) = if idx % 5 == 3 {
+            w.count("generated-inside-a-build-script-environment");
+            let env = kside::build_script_env(&mut rng);
+            kside::generate_in_env(&c.src, super::lalr_diff::step_limit(&r), &env)
+        } else {
+            kside::generate(&c.src, super::lalr_diff::step_limit(&r))
+        };
         let text = match out {
             GenOutcome::Ok(t) => t,
             other => {
